@@ -1,4 +1,5 @@
 import RecipeGrid.Model.Fmt
+import RecipeGrid.Lemmas.Fmt
 /-! C11 — displayed numbers are correctly rounded, exact when they can be. -/
 namespace RG.C11
 
@@ -18,5 +19,181 @@ theorem roundHalfEven_err (q : Rat) :
       constructor <;> grind
     · rename_i h h'
       constructor <;> grind
+
+/-! ## reading decimal text (specification side, independent of the formatter) -/
+
+/-- a non-empty run of ASCII digits read as a natural number, most significant digit first -/
+def readDigits (s : Str) : Option Nat :=
+  if s ≠ [] ∧ s.all Char.isDigit then some (s.foldl (fun a c => 10 * a + (c.toNat - '0'.toNat)) 0) else none
+
+/-- read plain decimal text: digits, optionally a '.' followed by digits; the tool's own number
+    syntax for decimals.  `"12.50"` denotes `12 + 50/10^2`. -/
+def readDecimal (s : Str) : Option Rat :=
+  let ip := s.takeWhile (· != '.')
+  match s.dropWhile (· != '.') with
+  | [] =>
+    match readDigits ip with
+    | some a => some (a : Rat)
+    | none => none
+  | _ :: fp =>
+    match readDigits ip, readDigits fp with
+    | some a, some b => some ((a : Rat) + (b : Rat) / ((10 ^ fp.length : Nat) : Rat))
+    | _, _ => none
+
+example : readDecimal "12.50".toList = some (25 / 2) := by decide +kernel
+example : readDecimal "12.".toList = none := by decide +kernel
+example : readDecimal ".5".toList = none := by decide +kernel
+example : readDecimal "1e3".toList = none := by decide +kernel
+example : readDecimal "1.2.3".toList = none := by decide +kernel
+example : readDecimal "007".toList = some 7 := by decide +kernel
+
+theorem readDigits_of_isDigit {s : Str} (hs : s ≠ []) (hd : ∀ c ∈ s, c.isDigit = true) :
+    readDigits s = some (digitsVal s) := by
+  have : s.all Char.isDigit = true := List.all_eq_true.mpr hd
+  simp [readDigits, hs, this, digitsVal]
+
+theorem readDecimal_digits {s : Str} (hs : s ≠ []) (hd : ∀ c ∈ s, c.isDigit = true) :
+    readDecimal s = some ((digitsVal s : Nat) : Rat) := by
+  simp only [readDecimal, takeWhile_digits hd, dropWhile_digits hd, readDigits_of_isDigit hs hd]
+
+theorem readDecimal_digits_dot {a b : Str} (ha0 : a ≠ []) (ha : ∀ c ∈ a, c.isDigit = true)
+    (hb0 : b ≠ []) (hb : ∀ c ∈ b, c.isDigit = true) :
+    readDecimal (a ++ '.' :: b) =
+      some (((digitsVal a : Nat) : Rat) + ((digitsVal b : Nat) : Rat) / ((10 ^ b.length : Nat) : Rat)) := by
+  simp only [readDecimal, takeWhile_digits_dot ha, dropWhile_digits_dot ha,
+    readDigits_of_isDigit ha0 ha, readDigits_of_isDigit hb0 hb]
+
+/-- C11.2 the digits of a natural number read back as that number -/
+theorem natDigits_readback (n : Nat) : readDecimal (natDigits n) = some (n : Rat) := by
+  rw [readDecimal_digits (natDigits_ne_nil n) (natDigits_isDigit n), digitsVal_natDigits]
+
+/-! ## C11.1 `format_float` -/
+
+/-- C11.1 value: the shown text denotes x rounded half-to-even to d decimals, d = fracDigits sig x -/
+theorem formatFloat_value (sig : Nat) (x : Rat) (hx : 0 ≤ x) :
+    readDecimal (formatFloatSig sig x) =
+      some (((roundHalfEven (x * ((10 ^ fracDigits sig x : Nat) : Rat)) : Int) : Rat)
+              / ((10 ^ fracDigits sig x : Nat) : Rat)) := by
+  have hP := pow10_cast_pos (fracDigits sig x)
+  rcases formatFloatSig_cases sig x hx with ⟨n, hfmt, hval⟩ | ⟨s, k, hfmt, hs, hdig, -, hlen, hval⟩
+  · rw [hfmt, hval, natDigits_readback, Rat.intCast_natCast, Rat.natCast_mul,
+      Rat.mul_div_cancel (Rat.ne_of_gt hP)]
+  · rw [hfmt, hval, readDecimal_digits_dot (natDigits_ne_nil _) (natDigits_isDigit _) hs hdig,
+      digitsVal_natDigits, Rat.intCast_natCast]
+    have hk := pow10_cast_pos k
+    have hsl := pow10_cast_pos s.length
+    have hpow : ((10 ^ fracDigits sig x : Nat) : Rat) = ((10 ^ s.length : Nat) : Rat) * ((10 ^ k : Nat) : Rat) := by
+      rw [← hlen, Nat.pow_add, Rat.natCast_mul]
+    rw [hpow] at hP ⊢
+    rw [Rat.natCast_add, Rat.natCast_mul, Rat.natCast_mul, ← hlen, Nat.pow_add, Rat.natCast_mul]
+    congr 1
+    grind
+
+/-- hence within half a unit of the last digit of the budget -/
+theorem formatFloat_err (sig : Nat) (x : Rat) (hx : 0 ≤ x) :
+    ∃ v, readDecimal (formatFloatSig sig x) = some v ∧
+      2 * ((10 ^ fracDigits sig x : Nat) : Rat) * (v - x) ≤ 1 ∧
+      2 * ((10 ^ fracDigits sig x : Nat) : Rat) * (x - v) ≤ 1 := by
+  refine ⟨_, formatFloat_value sig x hx, ?_⟩
+  have hP := pow10_cast_pos (fracDigits sig x)
+  have hb := roundHalfEven_err (x * ((10 ^ fracDigits sig x : Nat) : Rat))
+  generalize ((10 ^ fracDigits sig x : Nat) : Rat) = P at *
+  generalize ((roundHalfEven (x * P) : Int) : Rat) = R at *
+  have h1 : P * (R / P) = R := by
+    rw [Rat.mul_comm, Rat.div_mul_cancel (Rat.ne_of_gt hP)]
+  constructor <;> grind
+
+/-- C11.1 shape: plain decimal notation, never exponent form, no trailing zero after the point,
+    no trailing point, at most `fracDigits` decimals -/
+theorem formatFloat_shape (sig : Nat) (x : Rat) (hx : 0 ≤ x) :
+    ∃ (ip fp : Str), formatFloatSig sig x = (if fp.isEmpty then ip else ip ++ '.' :: fp) ∧
+      ip ≠ [] ∧ ip.all Char.isDigit ∧ fp.all Char.isDigit ∧ fp.getLast? ≠ some '0' ∧
+      fp.length ≤ fracDigits sig x := by
+  rcases formatFloatSig_cases sig x hx with ⟨n, hfmt, -⟩ | ⟨s, k, hfmt, hs, hdig, hlast, hlen, -⟩
+  · exact ⟨natDigits n, [], by simpa using hfmt, natDigits_ne_nil n, natDigits_all_isDigit n,
+      by simp, by simp, by simp⟩
+  · refine ⟨natDigits x.floor.toNat, s, ?_, natDigits_ne_nil _, natDigits_all_isDigit _,
+      List.all_eq_true.mpr hdig, hlast, by omega⟩
+    have : s.isEmpty = false := by simpa using hs
+    simpa [this] using hfmt
+
+/-- C11.1 as used: `format_number` of a non-negative float, with the generated digit budget -/
+theorem formatNumber_flt_value (x : Rat) (hx : 0 ≤ x) :
+    readDecimal (formatNumber ⟨x, .flt⟩) =
+      some (((roundHalfEven (x * ((10 ^ fracDigits Gen.significantFigures x : Nat) : Rat)) : Int) : Rat)
+              / ((10 ^ fracDigits Gen.significantFigures x : Nat) : Rat)) :=
+  formatFloat_value Gen.significantFigures x hx
+
+/-- non-vacuity: 1.205 with a 3-digit budget has 2 decimals, 120.5 rounds half-to-even to 120,
+    and the trailing zero is dropped -/
+example : formatFloatSig 3 (mkRat 1205 1000) = "1.2".toList ∧ fracDigits 3 (mkRat 1205 1000) = 2 ∧
+    readDecimal "1.2".toList = some (((120 : Int) : Rat) / ((10 ^ 2 : Nat) : Rat)) := by decide +kernel
+/-- non-vacuity, carry: 9.995 has 2 decimals, 999.5 rounds half-to-even to 1000, shown as "10" -/
+example : formatFloatSig 3 (mkRat 1999 200) = "10".toList := by decide +kernel
+/-- non-vacuity: small values keep the whole budget as decimals -/
+example : formatFloatSig 3 (mkRat 15 10000) = "0.002".toList := by decide +kernel
+
+/-! ## C11.2 exact numbers -/
+
+/-- C11.2 integers are shown exactly -/
+theorem format_int_exact (n : Nat) : formatNumber ⟨(n : Rat), .int⟩ = natDigits n := by
+  have h : intStr ((n : Rat).num) = natDigits n := by
+    rw [Rat.num_natCast]; exact intStr_natCast n
+  simpa [formatNumber, Num.isFlt, formatFraction] using h
+
+/-- C11.2 rationals with an allowed denominator are shown exactly as a proper or mixed fraction in
+    lowest terms -/
+theorem format_fraction_exact (q : Rat) (hq : 0 ≤ q) (hd : q.den ≠ 1)
+    (ha : q.den ∈ Gen.allowedDenominators) :
+    let n := q.num.natAbs
+    formatFraction q =
+      (if n > q.den then natDigits (n / q.den) ++ ' ' :: natDigits (n % q.den) ++ '/' :: natDigits q.den
+       else natDigits n ++ '/' :: natDigits q.den)
+    ∧ 0 < n % q.den ∧ n % q.den < q.den ∧ Nat.Coprime (n % q.den) q.den
+    ∧ ((n / q.den : Nat) : Rat) + ((n % q.den : Nat) : Rat) / (q.den : Rat) = q := by
+  intro n
+  have hnum : 0 ≤ q.num := Rat.num_nonneg.mpr hq
+  have hnn : (n : Int) = q.num := by simp only [n]; omega
+  have hden := q.den_pos
+  have hcop : Nat.Coprime (n % q.den) q.den := by
+    have := q.reduced
+    rw [Nat.Coprime, ← Nat.gcd_rec, Nat.gcd_comm]; exact this
+  refine ⟨?_, ?_, Nat.mod_lt _ hden, hcop, ?_⟩
+  · have h1 : (q.den == 1) = false := by simpa using hd
+    have h2 : Gen.allowedDenominators.contains q.den = true := by simpa using ha
+    have h3 : intStr q.num = natDigits n := by rw [← hnn]; exact intStr_natCast n
+    simp only [formatFraction, h1, h2, h3]
+    simp [n]
+  · apply Nat.pos_of_ne_zero
+    intro h0
+    rw [h0, Nat.Coprime, Nat.gcd_zero_left] at hcop
+    exact hd hcop
+  · have hq' : ((n : Nat) : Rat) / (q.den : Rat) = q := by
+      rw [← Rat.intCast_natCast n, hnn, ← Rat.intCast_natCast q.den, ← Rat.divInt_eq_div]
+      exact Rat.num_divInt_den q
+    rw [natCast_div_add_mod n hden, hq']
+
+example : formatFraction (mkRat 7 4) = "1 3/4".toList ∧ formatFraction (mkRat 3 4) = "3/4".toList := by
+  decide +kernel
+
+/-! ## C11.4 decimal fallback -/
+
+/-- C11.4 other Fractions go through the nearest double: the shown value is the correctly rounded
+    *double* (this is what the code does; the double rounding is a recorded finding) -/
+theorem formatFraction_fallback (q : Rat) (hd : q.den ≠ 1) (ha : q.den ∉ Gen.allowedDenominators) :
+    formatFraction q = formatFloat (toDouble q) := by
+  have h1 : (q.den == 1) = false := by simpa using hd
+  have h2 : Gen.allowedDenominators.contains q.den = false := by simpa using ha
+  simp only [formatFraction, h1, h2]
+  simp
+
+/-- Recorded finding (double rounding): `q = 1.2550000000000000001` is strictly above the tie, so
+    its correctly rounded 3-digit value is 1.26 (`roundHalfEven (q * 100) = 126`), but the nearest
+    double of `q` is below 1.255, and `format_fraction` shows 1.25. -/
+theorem formatFraction_double_rounding_witness :
+    let q := mkRat 12550000000000000001 10000000000000000000
+    q.den ∉ Gen.allowedDenominators ∧ q.den ≠ 1 ∧
+    formatFraction q = "1.25".toList ∧ roundHalfEven (q * 100) = 126 ∧ fracDigits 3 q = 2 := by
+  decide +kernel
 
 end RG.C11
